@@ -46,6 +46,7 @@ func propC07(c *Ctx) propInfo {
 	}
 	c.floor("E1.P6-forward-refs", 1)
 	c.parserDepthBound()
+	c.hashIndexCounter()
 	c.visitMarkers()
 	c.floor("E1.P5-memo", 2)
 	c.floor("E1.P5-depth-compute", 2)
